@@ -37,14 +37,20 @@ def size_sums(n, explor, vec):
     return out
 
 
-def observe(ctx, case, lin, n, explor, what, obs=None) -> None:
+def allowed_sizes(lin, n, explor):
+    known = np.array(lin.icg_gym.incomplete_game.are_values_known(), dtype=bool)
+    return [any((not known[m]) and popcount(m) == k for m in explor) for k in range(n)]
+
+
+def observe(ctx, case, lin, n, explor, what, obs=None, check_mask=True) -> None:
     inner = lin.icg_gym
     known = np.array(inner.incomplete_game.are_values_known(), dtype=bool)
-    mask = np.array(lin.action_masks())
-    ctx.count("mask_checks")
-    want = [any((not known[m]) and popcount(m) == k for m in explor) for k in range(n)]
-    if mask.shape != (n,) or [bool(x) for x in mask] != want:
-        ctx.violation("mask-not-size-availability", f"{what}: mask {mask.tolist()} expected {want} (n={n}, known={np.nonzero(known)[0].tolist()})", case)
+    if check_mask:
+        mask = np.array(lin.action_masks())
+        ctx.count("mask_checks")
+        want = allowed_sizes(lin, n, explor)
+        if mask.shape != (n,) or [bool(x) for x in mask] != want:
+            ctx.violation("mask-not-size-availability", f"{what}: mask {mask.tolist()} expected {want} (n={n}, known={np.nonzero(known)[0].tolist()})", case)
     if obs is not None:
         o = np.array(obs, dtype=np.float64)
         wsum = size_sums(n, explor, np.array(inner.state))
@@ -84,8 +90,11 @@ def episode(ctx, case) -> None:
         values = [float(x) for x in inner.full_game.get_values()]
         observe(ctx, case, lin, n, explor, "after reset", obs)
         steps = 0
+        ask = not case.get("blind_steps")      # a driver need not query the mask before every step
         while True:
-            mask = np.array(lin.action_masks(), dtype=bool)
+            mask = np.array(lin.action_masks(), dtype=bool) if ask or steps == 0 else np.array(allowed_sizes(lin, n, explor), dtype=bool)
+            if not ask:
+                ctx.count("steps_without_mask_query")
             if not mask.any() or lin.done:
                 ctx.count("episodes_to_done")
                 break
@@ -131,7 +140,7 @@ def episode(ctx, case) -> None:
                                   f"{inner.reward!r}, {inner.done}", c)
                 if float(lin.reward) != float(inner.reward) or bool(lin.done) != bool(inner.done):
                     ctx.violation("reward-or-done-not-inner", "wrapper properties differ from the inner env's", c)
-                observe(ctx, c, lin, n, explor, f"after step({k})", o)
+                observe(ctx, c, lin, n, explor, f"after step({k})", o, check_mask=ask)
                 ctx.seen("tie_break_picks", f"{k}:{len(cands)}:{cands.index(new[0]) if new[0] in cands else -1}")
             ctx.case((values, np.nonzero(before)[0].tolist(), k), len(cands) >= 2,
                      sample=({"n": n, "generator": case["generator"], "size": k, "candidates": cands, "revealed": new,
@@ -149,7 +158,7 @@ def run(ctx) -> None:
                       "seed": rng.randint(0, 10**6), "np_seed": (ctx.seed * 7919 + rng.randint(0, 2**31 - 1)) % (2**32),
                       "budget": rng.choice([None, None, rng.randint(1, nexp)]), "episodes": rng.randint(1, 3),
                       "scale": rng.choice(sut.SCALES), "offset": rng.choice([0.0, 0.0, 0.0, -1e6]),
-                      "direct_inner_steps": rng.random() < 0.3})
+                      "direct_inner_steps": rng.random() < 0.3, "blind_steps": rng.random() < 0.3})
         ctx.count(f"n{n}_envs")
 
 
